@@ -70,6 +70,17 @@ CHECKS.update({
   text="TLC exhaustively checks that the implementation-shaped model of the generated constructors/setters (base.j2: __init__ loop, validate -> store -> clear other options, the three array-assignment paths) refines the data-object contract for 3-field structs/unions over all candidate classes and histories <=3 (4 thorough); every emitted history is replayed on 96 generated classes; recorded constructor/assign/_MODEL_/to_builtin round-trip events of seeded random types are validated by the trace spec. Array-element range is recorded as ambiguous, not asserted.",
   note=TB + "numpy 2.5.3; the Python concretization of candidate classes; value spaces wider than the boundaries are sampled."),
 })
+
+CHECKS.update({
+ "C13": dict(cat="model_checking", ref="DESIGN.md §6 C13",
+  technique="TLA+ model of deep_update on an explicit object heap (aliasing visible) + builder/context histories, I=>P by TLC with negative controls (shallow copy, deepcopy); TLC-emitted histories replayed on the real deep_update / LanguageConfig / LanguageContextBuilder / CLI; recorded histories trace-validated",
+  text="Precedence, default-marker, deep-union, documents-unmodified and contexts-stable clauses are TLA+ operators; the implementation-shaped model runs deep_update step by step on an object heap so that aliasing between source documents, the merged configuration and other builders is a state property. TLC explores all (built-in, <=2 files in both orders, override) combinations over nested maps of depth <=3 and builder sequences <=3 (copy modes shallow and deepcopy are refuted, rebuild passes); emitted and random histories are replayed through the real API, YAML files and CLI and validated by the trace spec. Same-builder reuse and explicit options inside a c++NN-pmr group are recorded as ambiguous.",
+  note=TB + "PyYAML as the document loader."),
+ "C19": dict(cat="exploration", ref="DESIGN.md §6 C19, §7",
+  technique="TLC-enumerated template grammar -> differential rendering (bundled engine vs stock Jinja2 3.1.6) -> TLA+ trace validation; TLC refinement check of the lineprefix / use-query semantics",
+  text="Bounded-exhaustive differential testing: TLC enumerates every template of a frozen grammar of the stable Jinja2 core (lexer-, structure- and expression-centred families); each is rendered by the bundled engine and by stock Jinja2 3.1.6 under all whitespace settings, and a TLA+ trace spec judges 'same output or both fail'. The semantics of the auto-indent marker, assert and ifuses are TLA+ operators: do_lineprefix and the UseQuery parse loop are model-checked against them and renderings of all placements/chains are validated. Jinja2 itself is not modelled.",
+  note="Stock Jinja2 3.1.6 is the executable reference; TLC and the JinjaRel* specs; the grammar is frozen to productions where 2.11.dev and 3.1.6 agree (skew register in vf/props/c19.py)."),
+})
 NOT_YET = {}
 props = [json.loads(l) for l in open(V / "properties.jsonl")]
 checks, na = [], []
